@@ -6,6 +6,7 @@ import (
 	"fmt"
 	"math/rand"
 	"strings"
+	"sync/atomic"
 	"time"
 
 	"github.com/herohde/morlock/pkg/board"
@@ -300,14 +301,32 @@ func engineAPI(ctx context.Context, r *rand.Rand, w *out.Writer, n, maxOps int) 
 		// and analyses mixed in between the other calls
 		analyses := i%2 == 1
 		def := uint(0)
+		var stub *apiStub
+		var made *int64
 		if analyses {
 			spec.Name = "stub"
 			def = uint(r.Intn(4)) // 0 = no default limit
-			e = engine.New(ctx, "stub", "verif", apiStub{}, engine.WithOptions(engine.Options{Depth: def, Hash: spec.Hash}), engine.WithZobrist(spec.Seed))
+			stub = &apiStub{}
+			made = new(int64)
+			factory := func(ctx context.Context, size uint64) search.TranspositionTable {
+				atomic.AddInt64(made, 1)
+				return search.NewTranspositionTable(ctx, size)
+			}
+			e = engine.New(ctx, "stub", "verif", stub, engine.WithTable(factory), engine.WithOptions(engine.Options{Depth: def, Hash: spec.Hash}), engine.WithZobrist(spec.Seed))
 		}
 		w.Emit(out.M{"op": "session", "engine": spec.Name, "hash": spec.Hash})
+		fill := func(ev out.M) out.M {
+			o := e.Options()
+			ev["opts"] = out.M{"depth": o.Depth, "hash": o.Hash}
+			ev["tables"] = -1
+			if made != nil {
+				ev["tables"] = atomic.LoadInt64(made)
+			}
+			ev["state"] = engineState(e)
+			return ev
+		}
 		emit := func(kind, arg string, bad bool, err error) {
-			w.Emit(out.M{"op": "api", "kind": kind, "arg": arg, "bad": proj.B2I(bad), "err": proj.B2I(err != nil), "state": engineState(e)})
+			w.Emit(fill(out.M{"op": "api", "kind": kind, "arg": arg, "bad": proj.B2I(bad), "err": proj.B2I(err != nil)}))
 		}
 		emit("start", "", false, nil)
 		k := 4 + r.Intn(4*maxOps)
@@ -315,15 +334,23 @@ func engineAPI(ctx context.Context, r *rand.Rand, w *out.Writer, n, maxOps int) 
 			b := e.Board()
 			legal, illegal := gen.LegalOf(b)
 			if analyses && r.Intn(3) == 0 {
-				if r.Intn(3) > 0 {
-					apiAnalyze(ctx, r, w, e, def)
+				if x := r.Intn(8); x == 0 {
+					n := uint(r.Intn(4))
+					e.SetDepth(n)
+					w.Emit(fill(out.M{"op": "api", "kind": "setdepth", "arg": "", "bad": 0, "err": 0, "n": n}))
+				} else if x == 1 {
+					n := uint(r.Intn(3))
+					e.SetHash(n)
+					w.Emit(fill(out.M{"op": "api", "kind": "sethash", "arg": "", "bad": 0, "err": 0, "n": n}))
+				} else if x < 6 {
+					w.Emit(fill(apiAnalyze(ctx, r, e, stub)))
 				} else {
 					pv, err := e.Halt(ctx)
 					first := []int{}
 					if len(pv.Moves) > 0 {
 						first = proj.Move(pv.Moves[0])
 					}
-					w.Emit(out.M{"op": "api", "kind": "halt", "arg": "", "bad": 0, "err": proj.B2I(err != nil), "first": first, "state": engineState(e)})
+					w.Emit(fill(out.M{"op": "api", "kind": "halt", "arg": "", "bad": 0, "err": proj.B2I(err != nil), "first": first}))
 				}
 				continue
 			}
@@ -372,9 +399,14 @@ func engineAPI(ctx context.Context, r *rand.Rand, w *out.Writer, n, maxOps int) 
 }
 
 // apiStub is an instant search: some legal move, an even score, never a mate.
-type apiStub struct{}
+type apiStub struct {
+	ttseen int64 // size in MB of the table the latest depth-1 search was given
+}
 
-func (apiStub) Search(ctx context.Context, sctx *search.Context, b *board.Board, depth int) (uint64, eval.Score, []board.Move, error) {
+func (s *apiStub) Search(ctx context.Context, sctx *search.Context, b *board.Board, depth int) (uint64, eval.Score, []board.Move, error) {
+	if depth == 1 {
+		atomic.StoreInt64(&s.ttseen, int64(sctx.TT.Size()>>20))
+	}
 	select {
 	case <-ctx.Done():
 		return 0, eval.Score{}, nil, search.ErrHalted
@@ -390,7 +422,7 @@ func (apiStub) Search(ctx context.Context, sctx *search.Context, b *board.Board,
 // apiAnalyze calls Engine.Analyze with an explicit limit (0 = explicitly none) or without one, and
 // watches the stream: the depth at which it ends by itself, or that it was still open well past
 // every limit in play (then the search is left running: a later call has to halt it).
-func apiAnalyze(ctx context.Context, r *rand.Rand, w *out.Writer, e *engine.Engine, def uint) {
+func apiAnalyze(ctx context.Context, r *rand.Rand, e *engine.Engine, stub *apiStub) out.M {
 	limit := -1
 	opt := searchctl.Options{}
 	if r.Intn(2) == 0 {
@@ -398,7 +430,7 @@ func apiAnalyze(ctx context.Context, r *rand.Rand, w *out.Writer, e *engine.Engi
 		opt.DepthLimit = lang.Some(uint(limit))
 	}
 	ch, err := e.Analyze(ctx, opt)
-	ev := out.M{"op": "api", "kind": "analyze", "arg": "", "bad": 0, "err": proj.B2I(err != nil), "limit": limit, "default": def, "closed": -1, "seen": 0}
+	ev := out.M{"op": "api", "kind": "analyze", "arg": "", "bad": 0, "err": proj.B2I(err != nil), "limit": limit, "closed": -1, "seen": 0, "ttseen": -1}
 	if err == nil {
 		last, open := 0, true
 		deadline := time.After(30 * time.Second)
@@ -417,6 +449,9 @@ func apiAnalyze(ctx context.Context, r *rand.Rand, w *out.Writer, e *engine.Engi
 			}
 		}
 		ev["seen"] = last
+		if last > 0 {
+			ev["ttseen"] = atomic.LoadInt64(&stub.ttseen)
+		}
 		if open {
 			// keep draining so that nothing waits for this reader
 			go func() {
@@ -425,6 +460,5 @@ func apiAnalyze(ctx context.Context, r *rand.Rand, w *out.Writer, e *engine.Engi
 			}()
 		}
 	}
-	ev["state"] = engineState(e)
-	w.Emit(ev)
+	return ev
 }
